@@ -205,6 +205,7 @@ pub fn run_seq(trace: &Trace, skip: &BTreeSet<usize>, opts: &SeqOpts) -> SeqOutc
     // C04 (unsync): excess created by a weight-growing update may persist until the
     // next housekeeping operation returns.
     let mut growth_excess_pending = false;
+    let mut excess_prev = 0u64;
     // C03 "fits" rule bookkeeping
     struct Fits {
         k: u16,
@@ -555,7 +556,12 @@ pub fn run_seq(trace: &Trace, skip: &BTreeSet<usize>, opts: &SeqOpts) -> SeqOutc
                                     .unwrap_or(false),
                                 _ => false,
                             };
-                            growth_excess_pending = growing_update;
+                            // The excess of a weight-growing update is removed by "following
+                            // operations": one eviction batch (100 entries) per operation, so
+                            // it may take several of them; each must make progress.
+                            let progressing = growth_excess_pending && phys_w < excess_prev;
+                            growth_excess_pending = growing_update || (phys_w > cap && progressing);
+                            excess_prev = phys_w;
                         }
                         if phys_w > cap {
                             if growth_excess_pending {
